@@ -22,6 +22,10 @@ class Boom(Exception):
     pass
 
 
+class CleanupError(Exception):
+    pass
+
+
 def delay_set(P):
     e = 0.001
     return (0.0, 0.0, e, P / 2, P - e, P, P + e, 2 * P, 3 * P + e)
@@ -43,7 +47,7 @@ class C06(Prop):
                            "baize.concurrency.ThreadPoolExecutor.submit", "asyncio.Queue/wait_for/tasks/async generators (CPython 3.12)", "user generators"],
                   "stub": ["event-loop selector/clock", "ASGI server", "WSGI server", "queue.Queue blocking", "pool executor -> simulated thread",
                            "Future.result/exception waiting", "time.sleep/time"]}
-    hard_probes = ("disconnect", "server_close_early", "wsgi_sse_close_while_relay_alive", "asgi_sse_ping_sent", "send_backpressure", "send_raises", "pool_saturated")
+    hard_probes = ("disconnect", "server_close_early", "wsgi_sse_close_while_relay_alive", "asgi_sse_ping_sent", "send_backpressure", "send_raises", "pool_saturated", "cleanup_raises", "wsgi_sse_two_streams")
     quick_runs = 25000
     thorough_runs = 400000
     quick_wall = 50.0
@@ -68,11 +72,15 @@ class C06(Prop):
             "raising": t.draw(3) == 0,
             "iter_kind": t.weighted([(4, "gen"), (1, "iter")]),
             "time_fracs": [t.draw(1000) / 1000.0 for _ in range(2)],
+            # the user's cleanup code itself fails (after the marker): the response must still release everything
+            "cleanup_raises": t.draw(8) == 0,
         }
         if surface == "wsgi-sse":
             plan["preempt"] = t.choice(PREEMPT)
             plan["cdelays"] = [t.choice((0.0, 0.0, 0.001, P / 2, P, P + 0.001)) for _ in range(8)]
             plan["pool_delay"] = t.choice((0.0, 0.0, 0.0, P / 2, 2 * P + 0.001))
+            # a second, independent event stream alive at the same time (the pool is shared by all responses)
+            plan["second_stream"] = t.choice([None, None, None, {"n": 1 + t.draw(3), "delay": t.choice((0.0, 0.001, P / 2)), "start": t.choice((0.0, 0.0, 0.3))}])
         return plan
 
     def variants(self, plan, ctx0):
@@ -136,6 +144,7 @@ class C06(Prop):
         L_max = max(lats)
         st = {"started": 0, "cleanup": 0, "events": []}
         boom = Boom("producer failure")
+        cboom = CleanupError("cleanup failure")
         ctx.actors = 3
 
         def build_iterable(loop):
@@ -162,6 +171,9 @@ class C06(Prop):
                     ctx.sch("cleanup", round(loop.time(), 6))
                     if cdelay:
                         await asyncio.sleep(cdelay)
+                    if plan.get("cleanup_raises"):
+                        ctx.fault("cleanup_raises")
+                        raise cboom
 
             if plan["iter_kind"] == "gen":
                 return gen()
@@ -216,7 +228,10 @@ class C06(Prop):
                     "pings": peer.body.count(b": ping\n\n")}
             inner = st.get("inner")
             if inner is not None:   # iterator without aclose: release it ourselves after the snapshot
-                await inner.aclose()
+                try:
+                    await inner.aclose()
+                except CleanupError:
+                    pass
             return snap
 
         try:
@@ -234,7 +249,7 @@ class C06(Prop):
         t_disc = snap["t_disc"]
         # 4. exception identity
         if exc is not None:
-            if exc is boom:
+            if exc is boom or exc is cboom:
                 pass
             elif isinstance(exc, ClientGone) and plan["raising"] and t_disc is not None:
                 pass
@@ -267,8 +282,9 @@ class C06(Prop):
             ctx.violate("C06|%s|release|cleanup-ran-%d-times" % (surf, snap["st"]["cleanup"]), "")
         if snap["pend"]:
             ctx.violate("C06|%s|release|task-still-pending|%s" % (surf, ",".join(snap["pend_names"])), "%d tasks pending after the call returned and cleanup time elapsed" % snap["pend"])
-        if loop.errors:
-            ctx.violate("C06|%s|release|loop-error|%s" % (surf, loop.errors[0][0][:40]), repr(loop.errors[:3]))
+        errs = [e for e in loop.errors if not (plan.get("cleanup_raises") and e[1] == "CleanupError")]
+        if errs:
+            ctx.violate("C06|%s|release|loop-error|%s" % (surf, errs[0][0][:40]), repr(errs[:3]))
         # 3. delivery
         self._check_delivery(plan, ctx, surf, snap["body"], complete_expected=(t_disc is None and exc is None))
         if t_disc is None and exc is None and not snap["complete"] and not ctx.faults.get("send_raises"):
@@ -283,7 +299,9 @@ class C06(Prop):
         P, n, delays, boom_at = plan["P"], plan["n"], plan["delays"], plan["boom_at"]
         st = {"started": 0, "cleanup": 0, "events": []}
         boom = Boom("producer failure")
+        cboom = CleanupError("cleanup failure")
         out = {}
+        second = {"cleanup": 0, "body": b"", "exc": None, "done": False}
         close_after = None if variant is None else variant[1]
         ctx.notes["qrepr"] = lambda x: None if x is None else (x.get("data") if isinstance(x, dict) else type(x).__name__)
         with T.simulation(ctx.sched, ctx, trace_files=("baize/wsgi/responses.py", "baize/concurrency.py"), preempt=plan["preempt"]) as s:
@@ -309,6 +327,9 @@ class C06(Prop):
                     st["events"].append((s.now, "end"))
                 finally:
                     st["cleanup"] += 1
+                    if plan.get("cleanup_raises"):
+                        ctx.fault("cleanup_raises")
+                        raise cboom
 
             if plan["iter_kind"] == "gen":
                 iterable = gen()
@@ -345,9 +366,30 @@ class C06(Prop):
                 out["closed_at"] = s.now
 
             s.spawn(consumer, "consumer")
+            ss = plan.get("second_stream")
+            if ss:
+                ctx.probe("wsgi_sse_two_streams")
+
+                def gen2():
+                    try:
+                        for i in range(ss["n"]):
+                            if ss["delay"]:
+                                _t.sleep(ss["delay"])
+                            yield {"data": "s%d" % i}
+                    finally:
+                        second["cleanup"] += 1
+
+                def consumer2():
+                    if ss["start"]:
+                        _t.sleep(ss["start"])
+                    peer2 = WsgiPeer(ctx, ctx.sched, AbstractRequest("GET", "/two"), surface=surf)
+                    peer2.run(SendEventResponse(gen2(), ping_interval=P))
+                    second.update(body=peer2.body, exc=peer2.exc or peer2.close_exc, done=True)
+
+                s.spawn(consumer2, "consumer2")
             res = s.run()
             # snapshot BEFORE teardown
-            snap = {"res": res, "threads": s.snapshot(), "st": dict(st, events=list(st["events"])), "out": dict(out), "body": peer.body,
+            snap = {"res": res, "threads": s.snapshot(), "st": dict(st, events=list(st["events"])), "out": dict(out), "body": peer.body, "second": dict(second),
                     "exc": peer.exc, "close_exc": peer.close_exc, "items": peer.n_items, "now": s.now, "switches": s.switches, "pre": s.preemptions}
             inner = st.get("inner")
         # (simulation exited: threads torn down)
@@ -388,9 +430,17 @@ class C06(Prop):
             # 2. release (all threads done is implied by res == ok)
             if plan["iter_kind"] == "gen" and snap["st"]["started"] and snap["st"]["cleanup"] != 1:
                 ctx.violate("C06|%s|release|cleanup-ran-%d-times" % (surf, snap["st"]["cleanup"]), "")
+        # the second, independent stream must be unaffected: complete delivery, cleanup once, no exception
+        if plan.get("second_stream") and snap["res"] == "ok":
+            s2 = snap["second"]
+            exp2 = b"".join(b"data: s%d\n\n" % i for i in range(plan["second_stream"]["n"]))
+            if s2["exc"] is not None:
+                ctx.violate("C06|%s|second-stream|exception|%s" % (surf, type(s2["exc"]).__name__), repr(s2["exc"]))
+            elif not s2["done"] or s2["body"].replace(b": ping\n\n", b"") != exp2 or s2["cleanup"] != 1:
+                ctx.violate("C06|%s|second-stream|incomplete" % surf, "done=%s cleanup=%d body=%r" % (s2["done"], s2["cleanup"], s2["body"][:80]))
         # 4. exception identity
         for e in (snap["exc"], snap["close_exc"]):
-            if e is not None and e is not boom:
+            if e is not None and e is not boom and e is not cboom:
                 ctx.violate("C06|%s|exception|foreign-exception|%s" % (surf, type(e).__name__), repr(e))
         if snap["res"] == "ok" and close_after is None and boom_at is not None and snap["exc"] is None and snap["close_exc"] is None:
             ctx.violate("C06|%s|exception|producer-exception-swallowed" % surf, "producer raised at step %d" % boom_at)
